@@ -288,7 +288,10 @@ def generate(prop: str, seed: int, tier: str = "quick", fault_free: bool = False
         faults = []
     else:
         faults = [k for k in FAULT_KINDS if f.random() < 0.6]
-    n_ds = c.randint(1, 4)
+    # swarm: most runs are short and small; a few are BIG (long histories, many datasets, deep
+    # chains, many calls in flight) so that nothing silently depends on the small configuration
+    big = (not fault_free) and c.random() < (0.08 if tier == "thorough" else 0.03)
+    n_ds = c.randint(5, 9) if big else c.randint(1, 4)
     typed_ok = "typed" in faults and prop != "C04"
     datasets = [{"typed": (c.randrange(3) if typed_ok and c.random() < 0.55 else -1)}
                 for _ in range(n_ds)]
@@ -302,7 +305,9 @@ def generate(prop: str, seed: int, tier: str = "quick", fault_free: bool = False
         "sites": sites,
         "faults": faults,
         "real_disk": bool(tier == "thorough" and c.random() < 0.25),
-        "step_cap": 20000,
+        "step_cap": 200000 if big else 20000,
+        "big": big,
+        "live_cap": 80 if big else 24,
     }
     weights = dict(PROFILES[prop])
     if "derive_fail" not in faults:
@@ -319,6 +324,8 @@ def generate(prop: str, seed: int, tier: str = "quick", fault_free: bool = False
     if "shared_ast" not in faults:
         modes["shared"] = 0
     n_ops = min(40, 2 + int(w.expovariate(1 / 11.0)))
+    if big:
+        n_ops = w.randint(80, 220)
     ops = []
     spawned = []
     qhist = {}
@@ -327,6 +334,10 @@ def generate(prop: str, seed: int, tier: str = "quick", fault_free: bool = False
         if k == "derive":
             ops.append({"op": "derive", "parent": w.randrange(64), "lam": w.randrange(64),
                         "mode": _wchoice(w, modes)})
+            if big and w.random() < 0.08:  # a deep chain: derive again and again from the newest
+                for _ in range(w.randint(10, 40)):
+                    ops.append({"op": "derive", "parent": -1, "lam": w.randrange(64),
+                                "mode": _wchoice(w, modes)})
         elif k == "md":
             r = w.random()
             if r < 0.45:
@@ -419,7 +430,7 @@ def generate(prop: str, seed: int, tier: str = "quick", fault_free: bool = False
         "seed": seed,
         "sched_seed": mix(seed, "sched"),
         "config": config,
-        "ops": ops[:48],
+        "ops": ops[:(400 if big else 48)],
     }
 
 
@@ -707,7 +718,7 @@ class Forest:
             self.by_id[m.op_id] = m
         self.live.append(m)
         self.ev("new", m.idx, made_by, sdig(m.snap[0]))
-        if len(self.live) > 24:  # bound the state: forget the oldest non-root stream
+        if len(self.live) > self.cfg.get("live_cap", 24):  # bound the state: forget the oldest
             for i, x in enumerate(self.live):
                 if x.made_by != "root":
                     del self.live[i]
@@ -1494,6 +1505,8 @@ def execute(case: dict) -> dict:
         f.stat("sync_value_threads", w.threads)
     kinds = [o["op"] for o in case["ops"]]
     hist = hashlib.sha256("\n".join(f.events).encode()).hexdigest()[:16]
+    if case["config"].get("big"):
+        f.stat("big_runs")
     nontrivial = bool(
         f.stats.get("probe_completion_order_differs_from_start_order")
         or any(k.startswith("fault_") for k in f.stats)
